@@ -14,7 +14,8 @@ Forms == <<"var", "lit", "binary", "neg", "call", "callarg", "assign", "chain", 
            "cond", "comma", "cast", "member", "deref", "index", "stmtexpr">>
 Types == <<"int", "long", "ptr", "float", "double", "ldouble", "small", "big">>
 Ctxs  == <<"exprstmt", "commalhs", "forinc", "condarm", "condarmvoid", "logand", "logor", "voidcast", "arg", "arg7", "oddnest", "vararg",
-           "init", "return", "ifcond", "assignrhs", "stmtexprdiscard", "stmtexprvalue">>
+           "init", "return", "ifcond", "assignrhs", "stmtexprdiscard", "stmtexprvalue",
+           "ldpendcomma", "ldpendstmtexpr", "ldpendvoid">>
 
 IsStruct(t) == t \in {"small", "big"}
 Scalar(t)   == ~IsStruct(t)
@@ -32,8 +33,10 @@ Valid(f, t, c) ==
    spilled to the stack with its own rsp arithmetic), in every context - in particular with an even and
    with an odd number of 8-byte temporaries pending ("oddnest": the call is the left operand of `+`,
    evaluated after the right operand has been pushed).                                               *)
-Always(f, t, c) == t = "ldouble" /\ (f = "callarg" \/ c \in {"arg", "arg7", "oddnest", "vararg"})
+Always(f, t, c) == t = "ldouble" /\ (f = "callarg" \/ c \in {"arg", "arg7", "oddnest", "vararg", "ldpendcomma", "ldpendstmtexpr", "ldpendvoid"})
 
+(* "ldpend...": the value is discarded while a long double operand of an enclosing operation is pending on
+   the x87 stack underneath it:  LA + ((E), LB),  LA * ({ E; LB; }),  LA < ((void)(E), LB).              *)
 VARIABLES fi, ti, ci, out
 vars == <<fi, ti, ci, out>>
 
